@@ -33,7 +33,8 @@ type caseT struct {
 	N       int         `json:"log_size"`
 	H       int         `json:"tile_height"`
 	S0      int         `json:"stored_latest_size"` // -1: empty
-	Cache   string      `json:"cache"`              // cold | warm-half | warm-full
+	Cache   string      `json:"cache"`              // cold | warm-half | warm-full | lookups-half (lookup files only)
+	Server  string      `json:"server,omitempty"`   // "" = serves every tile of its tree; "compacting" = partial tiles vanish once the full tile exists
 	Lookups []lookupT   `json:"lookups"`
 	Plan    []planEntry `json:"plan"`
 	Macro   string      `json:"macro,omitempty"` // forged-world macro-deviation: "fw:<record>:<levels>:<head>"
@@ -67,6 +68,10 @@ func (x *ctx) forgedLog(id int) *world.SignedLog {
 
 func (x *ctx) remote(size int) func(string) ([]byte, error) {
 	return func(p string) ([]byte, error) { return x.A.Serve(p, size) }
+}
+
+func (x *ctx) remoteCompacting(size int) func(string) ([]byte, error) {
+	return func(p string) ([]byte, error) { return x.A.ServeCompacting(p, size) }
 }
 
 func latestFile() string { return world.TheKeys().Name + "/latest" }
@@ -427,8 +432,17 @@ func (x *ctx) newEnv(c caseT) *opsenv.Env {
 		for k, v := range x.warmCache(c.H, c.N) {
 			env.Cache[k] = v
 		}
+	case "lookups-half":
+		for k, v := range x.warmCache(c.H, (c.N+1)/2) {
+			if strings.Contains(k, "/lookup/") {
+				env.Cache[k] = v
+			}
+		}
 	}
 	env.Remote = x.remote(c.N)
+	if c.Server == "compacting" {
+		env.Remote = x.remoteCompacting(c.N)
+	}
 	env.Apply = x.apply(c)
 	for _, p := range c.Plan {
 		if strings.HasPrefix(p.Res, "config:") && p.Fault.Kind != "error" {
@@ -653,9 +667,13 @@ func scenarios(nmax int, heights []int, twoLookups bool, skip map[int]bool) []ca
 			}
 			sort.Ints(s0l)
 			for _, s0 := range s0l {
-				for _, cache := range []string{"cold", "warm-half", "warm-full"} {
+				for _, cs := range [][2]string{{"cold", ""}, {"warm-half", ""}, {"warm-full", ""}, {"lookups-half", "compacting"}, {"cold", "compacting"}} {
+					cache, server := cs[0], cs[1]
 					for rec := 0; rec < n; rec++ {
-						base := caseT{N: n, H: h, S0: s0, Cache: cache}
+						if cache == "lookups-half" && rec >= (n+1)/2 && s0 != n {
+							continue // the cached lookups cover the first half only; others behave as cold
+						}
+						base := caseT{N: n, H: h, S0: s0, Cache: cache, Server: server}
 						one := base
 						one.Lookups = []lookupT{{Rec: rec, GoMod: rec%2 == 1}}
 						out = append(out, one)
@@ -682,7 +700,7 @@ func Run(r *fw.Run) {
 	r.Bounds["log_sizes"] = fmt.Sprintf("1..%d (plus 13 records with tile height 8 in thorough)", nmax)
 	r.Bounds["tile_heights"] = heights
 	r.Bounds["stored_latest"] = "empty, 1, ceil(N/2), N"
-	r.Bounds["cache_states"] = []string{"cold", "warm-half", "warm-full"}
+	r.Bounds["cache_states"] = []string{"cold", "warm-half", "warm-full", "lookups-half + compacting server", "cold + compacting server"}
 	r.Bounds["deviations"] = "0 and 1 everywhere with the full menu (per-slot tile corruptions; every byte of lookup responses and stored config flipped - in the quick tier every byte only for cold-cache scenarios with stored head empty/1, every 7th/5th byte otherwise); 2 with reduced menus for N<=4 (quick) / N<=6 (thorough); forged-world macro-deviations at every level"
 	r.Bounds["histories"] = "1 lookup everywhere; 2 lookups (all record pairs, with/without restart) for N<=6 in thorough, N<=3 in quick"
 	r.Rule = "state = (log size, tile height, stored head, cache state, lookup history, fault plan over named resources); children = plan + one corruption of one resource touched by the parent run, larger in name order than the plan's last resource. Every execution runs the real sumdb.Client. non-trivial = plan with >=1 deviation that changed at least one byte actually served. outcome = deviation count x (ok | ok-empty | err) per lookup"
